@@ -87,11 +87,11 @@ pub fn move_cell_recreate_and_style(&mut self, sheet: u32, source_row: i32, sour
     let ghost mut entered: bool = false;
     let ghost mut styled: bool = false;
 //@fragment base/src/actions.rs Model::move_cell `if let Some((` .. `remove_cell(source_row, source_column)`
-//@afterstmt? `self.set_user_input(sheet, target_row, target_column, formula_or_value)`
+//@afterstmt? `.set_user_input(`
             proof { entered = true; }
-//@afterstmt? `self.set_user_array_formula(`
+//@afterstmt? `.set_user_array_formula(`
             proof { entered = true; }
-//@afterstmt? `set_cell_style(target_row, target_column, style)`
+//@afterstmt? `.set_cell_style(`
         proof { if entered { styled = true; } }
 //@end
     assert(styled);   // on every path that reaches the end, the saved style was written after the re-entry
